@@ -275,6 +275,9 @@ def one_roundtrip(rng, res, d, use_gpg):
     e = scen.falsy_edit(content, rng)
     if e:
         variants.append(("falsy_edit", e[0], verify_pub, False))
+    e = scen.shadow_signature(content, rng)
+    if e:
+        variants.append(("shadow_signature", e[0], verify_pub, True))
     for label, c, pub, must_verify in variants:
         p2 = path + "." + label
         json.dump(c, open(p2, "w", encoding="utf8"))
@@ -289,6 +292,12 @@ def one_roundtrip(rng, res, d, use_gpg):
             res.fail("disagree", {"op": "load_verify_sig", "desc": dict(desc, variant=label), "content": c, "key": pub,
                                   "table": table.rows}, {"op": "load_verify_sig", "impl": i, "model": m})
         verified = i.get("load") == "ok" and i["check"] == "ok"
+        if label == "shadow_signature" and not verified:
+            res.fail("oracle", {"op": "load_verify_sig", "desc": dict(desc, variant=label), "content": c, "key": pub, "table": table.rows},
+                     {"why": "a signature entry with another key id (a fragment of the signer's) placed before the genuine signature made "
+                             "the genuine one not count", "impl": {k: v for k, v in i.items() if k != "bytes"}})
+        if label == "shadow_signature":
+            continue
         if label == "untouched":
             if not verified:
                 res.fail("oracle", {"op": "load_verify_sig", "desc": dict(desc, variant=label), "content": c, "key": pub, "table": table.rows},
